@@ -424,7 +424,7 @@ SPICE = {
     # tags that the label parser would take apart
     'pos-decorated': ('pos', ['NN-SB', "VVFIN'", 'ADV-1', 'ADV=2']),
     # words
-    'word-unicode': ('word', ['café', 'Å', 'ﬁn',
+    'word-unicode': ('word', ['Caf\u00e9', 'Cafe\u0301', 'café', 'Å', 'ﬁn',
                               'İstanbul', 'ſ', '\U0001F600',
                               'a​b', 'ＡＢ１', 'של',
                               'Å']),
